@@ -4,6 +4,7 @@ package c08
 
 import (
 	"fmt"
+	"hash/fnv"
 	"strings"
 
 	"github.com/zclconf/go-cty/cty"
@@ -44,6 +45,23 @@ func doConvert(in cty.Value, ty cty.Type) outcome {
 // getConv looks a conversion up (safe or unsafe); pan is non-empty when the
 // lookup itself panicked.
 func getConv(in, out cty.Type, unsafe bool) (conv convert.Conversion, pan string) {
+	// For half of the type pairs (chosen by a hash of the pair: a pure function
+	// of the input) the OTHER mode is looked up first and discarded: what one
+	// mode offers must not depend on what was asked before.
+	h := fnv.New32a()
+	h.Write([]byte(in.GoString()))
+	h.Write([]byte{0})
+	h.Write([]byte(out.GoString()))
+	if h.Sum32()&1 == 1 {
+		func() {
+			defer func() { _ = recover() }()
+			if unsafe {
+				convert.GetConversion(in, out)
+			} else {
+				convert.GetConversionUnsafe(in, out)
+			}
+		}()
+	}
 	defer func() {
 		if r := recover(); r != nil {
 			pan = fmt.Sprint(r)
